@@ -500,8 +500,12 @@ pub fn rejoin_in_rotation(ctx: &mut Ctx) {
 pub fn rejoin_routable(ctx: &mut Ctx) {
     rejoin(ctx, 3)
 }
+/// C08: REP only, judged for "the reply goes to the connection the request came from"
+pub fn rejoin_reply(ctx: &mut Ctx) {
+    rejoin(ctx, 4)
+}
 fn rejoin(ctx: &mut Ctx, judge: u8) {
-    let kind = if judge == 2 { Kind::Dealer } else if judge == 3 { Kind::Router } else { [Kind::Router, Kind::Dealer, Kind::Rep, Kind::Pull, Kind::Xpub, Kind::Sub][(ctx.idx % 6) as usize] };
+    let kind = if judge == 2 { Kind::Dealer } else if judge == 3 { Kind::Router } else if judge == 4 { Kind::Rep } else { [Kind::Router, Kind::Dealer, Kind::Rep, Kind::Pull, Kind::Xpub, Kind::Sub][(ctx.idx % 6) as usize] };
     let timing = (ctx.idx / 6) % 4; // when the second connection is opened
     // how the first connection ends: orderly close, cut inside a message, reset - or not at all: it
     // stays open and idle (a half-open connection, or a second client configured with the same
@@ -630,6 +634,12 @@ fn rejoin(ctx: &mut Ctx, judge: u8) {
             if kind == Kind::Rep && p2.inbound().messages().is_empty() {
                 o2.borrow_mut().1.push(("rejoined_peer_not_reachable", format!("REP (rejoin timing {timing}): the reply did not reach the rejoined peer's connection")));
             }
+            if kind == Kind::Rep {
+                let old_msgs = o2.borrow().2.first().map(|c| rc::parse_stream(&c.tap_from(1)).messages().len()).unwrap_or(0);
+                if old_msgs > 1 {
+                    o2.borrow_mut().1.push(("reply_on_the_old_connection", format!("REP (rejoin timing {timing}): the request came in on the peer's new connection, the reply was written to its old one ({old_msgs} messages there, one request was answered on it)")));
+                }
+            }
         }
         drain(&mut sock, kind, &dummy, false).await;
         // ... and it stays that way: once more after further recv calls have had every occasion to
@@ -691,7 +701,7 @@ fn rejoin(ctx: &mut Ctx, judge: u8) {
     ctx.check_panics();
     let o = out.borrow();
     for (c, d) in o.1.clone() {
-        if judge == 1 && c != "rejoined_peer_not_heard" || judge == 2 && c != "rejoined_peer_not_reachable" || judge == 3 && !matches!(c, "rejoined_peer_not_reachable" | "rejoined_peer_label_wrong") {
+        if judge == 1 && c != "rejoined_peer_not_heard" || judge == 2 && c != "rejoined_peer_not_reachable" || judge == 3 && !matches!(c, "rejoined_peer_not_reachable" | "rejoined_peer_label_wrong") || judge == 4 && !matches!(c, "rejoined_peer_not_reachable" | "reply_on_the_old_connection") {
             continue;
         }
         ctx.violation(&format!("{c}:{}", kind.name()), d);
